@@ -25,6 +25,7 @@ type staleCase struct {
 	BuildAfterAdd bool // explicit index.Build() after the later Add
 	ResetEQ       bool // EdgeQuery.Reset() after the later Add
 	ResetIndex    bool // index.Reset() before the later Add: the index then holds the later shapes only
+	First         int  // which method (and vertex model) is asked first after the change: the first call is the one that has to notice it
 	Readd         bool // with ResetIndex: the SAME earlier shape objects are added again after the later ones (they get other ids)
 	Probes        []gen.P
 	Cfg           qcfg
@@ -43,6 +44,7 @@ func genStale(t *rapid.T) staleCase {
 	c.ResetEQ = rapid.Bool().Draw(t, "resetEQ")
 	c.ResetIndex = rapid.IntRange(0, 2).Draw(t, "resetIndex") == 0
 	c.Readd = c.ResetIndex && rapid.Bool().Draw(t, "readd")
+	c.First = rapid.IntRange(0, 2).Draw(t, "first")
 	// probes mostly around the later shapes, where the answers change
 	c.Probes = append(gen.ProbePoints(t, "pa", allVerts(c.After), 4), gen.ProbePoints(t, "pb", allVerts(c.Before), 2)...)
 	c.Cfg = qcfg{Limit: -1, Interiors: rapid.Bool().Draw(t, "int"), K: rapid.SampledFrom([]int{0, 1, 3}).Draw(t, "K"), Brute: rapid.IntRange(0, 3).Draw(t, "brute") == 0}
@@ -136,16 +138,17 @@ func runStale(c staleCase) ev.Outcome {
 		if p.Dot(q.Vector) < -0.9 {
 			q = gen.Fix(s2.Interpolate(0.3, p, q), p)
 		}
-		for m := range cpq {
+		for mm := range cpq {
 			if c.Which != "cpq" {
 				break
 			}
+			m := (mm + c.First%3 + 3) % 3
 			fq := s2.NewContainsPointQuery(fidx, vertexModels[m])
 			k := len(hs) - 1
 			// Which method is asked first matters: any one of them may be the one
 			// that notices the pending update. The vertex models take turns.
 			for j := 0; j < 3; j++ {
-				switch (j + m) % 3 {
+				switch (j + c.First%3 + mm + 3) % 3 {
 				case 0:
 					note("ContainsPointQuery.Contains", cpq[m].Contains(p), fq.Contains(p))
 				case 1:
@@ -161,7 +164,7 @@ func runStale(c staleCase) ev.Outcome {
 		if c.Which == "ceq" {
 			fce := s2.NewCrossingEdgeQuery(fidx)
 			k := len(hs) - 1
-			if c.BuildAfterAdd == c.UseBefore { // either method first
+			if c.First%2 == 1 { // either method first
 				note("CrossingEdgeQuery.Crossings", append([]int{}, ceq.Crossings(p, q, hs[k], s2.CrossingTypeAll)...), append([]int{}, fce.Crossings(p, q, fs[k], s2.CrossingTypeAll)...))
 			}
 			note("CrossingEdgeQuery.CrossingsEdgeMap", edgeMapByPos(ceq.CrossingsEdgeMap(p, q, s2.CrossingTypeAll), hs), edgeMapByPos(fce.CrossingsEdgeMap(p, q, s2.CrossingTypeAll), fs))
